@@ -150,10 +150,24 @@ def c16(ctx):
                 cases = pick
             for c in cases:
                 jobs.append((s["name"], c))
+            # the same cases with an invalid value that compares equal to the value in force (1.0 for 1, 0 for False);
+            # the driver skips them for settings that have no such value
+            eq = [c for c in by_kind.get(s["kind"], []) if "bad" in (c["fw"], c["file"])]
+            if per is not None and len(eq) > 80:
+                eq = rng.sample(eq, 80)
+            for c in eq:
+                jobs.append((s["name"], dict(c, badeq=True)))
+            # reload (HUP) after the chosen file stopped mentioning the setting: judged as the case with file = "no"
+            rl = [c for c in by_kind.get(s["kind"], []) if c["file"] in ("A", "B") and c["files"]
+                  and "bad" not in (c["fw"], c["env"], c["cli"])]
+            if per is not None and len(rl) > 60:
+                rl = rng.sample(rl, 60)
+            for c in rl:
+                jobs.append((s["name"], dict(c, reload=True)))
         ctx.coverage["abstract_cases"] = len(rows)
         # distribute: interleave so that every worker gets a mix
         parts = [jobs[n::NPROC] for n in range(NPROC)]
-        futs = [ex.submit(driver, n, "run", [[nm, {k: c[k] for k in ("fw", "file", "env", "cli", "files")}]
+        futs = [ex.submit(driver, n, "run", [[nm, {k: c[k] for k in ("fw", "file", "env", "cli", "files", "badeq", "reload") if k in c}]
                                              for nm, c in part]) for n, part in enumerate(parts)]
         results = [f.result() for f in futs]
         fd.result()
@@ -168,6 +182,13 @@ def c16(ctx):
             loads += 1
             ev = {"kind": c["kind"], "fw": c["fw"], "file": c["file"], "env": c["env"], "cli": c["cli"],
                   "files": c["files"], "fail": r["fail"], "obs": r["obs"]}
+            if c.get("badeq"):
+                ev["badeq"] = True
+            if c.get("reload"):
+                if not r.get("reloaded"):
+                    continue              # the first load already stopped: nothing was reloaded
+                ev["reload"] = True
+                ev["file"] = "no"         # what the sources say at the time of the reload
             per_setting.setdefault(nm, []).append((ev, r, c))
     ctx.coverage["loads"] = loads
     ctx.coverage["cases_skipped_inexpressible"] = skipped["inexpressible"]
@@ -218,8 +239,10 @@ def judge(ctx, per_setting):
                 nxt[n] = pending[n][step:]
                 continue
             total += 1
-            sig = "C16/%s/setting=%s,kind=%s,top=%s,got=%s" % (v, n, ev["kind"], top_of(ev),
-                                                              got_from(ev, ev["obs"], ev["fail"]))
+            sig = "C16/%s/setting=%s,kind=%s,top=%s,got=%s%s%s" % (v, n, ev["kind"], top_of(ev),
+                                                                  got_from(ev, ev["obs"], ev["fail"]),
+                                                                  ",invalid==current" if ev.get("badeq") else "",
+                                                                  ",after-reload" if ev.get("reload") else "")
             ctx.violation(sig, "%s: setting %s (%s): sources fw=%s file=%s env=%s cli=%s, files named by %s -> %s; "
                           "argv=%s GUNICORN_CMD_ARGS=%r" % (v, n, ev["kind"], ev["fw"], ev["file"], ev["env"],
                                                             ev["cli"], ev["files"], r.get("detail"), r.get("argv"),
@@ -235,7 +258,7 @@ def replay(ctx, data):
     n, ev = case["setting"], case["case"]
     print("replaying %s" % data["signature"])
     os.makedirs(SCRATCH, exist_ok=True)
-    res = driver(9, "run", [[n, {k: ev[k] for k in ("fw", "file", "env", "cli", "files")}]])[0]
+    res = driver(9, "run", [[n, {k: ev[k] for k in ("fw", "file", "env", "cli", "files", "badeq", "reload") if k in ev}]])[0]
     print("observed:", res)
     if "skip" in res:
         return 0
